@@ -29,8 +29,11 @@ C14OK(rec) ==
                 IF rec.out = "ok" THEN rec.ret ELSE 0)
 C20OK(rec) ==
     IF rec.op = "stray" THEN rec.out = (IF StrayAborts(rec.f, rec.pos) THEN "abort" ELSE "ok") ELSE TRUE
+\* C16: a failed array allocation leaves the object empty, nothing leaked
+C16OK(rec) == (rec.op \in {"alloc", "set"} /\ \E k \in 1..Len(rec.ok) : ~rec.ok[k]) => C14OK(rec)
 VARIABLE i
 Judge(rec) ==
+    /\ (Level # 2 \/ C16OK(rec) \/ PrintT(<<"L2FAIL", "C16", rec.id>>))
     /\ (Level # 2 \/ C14OK(rec) \/ PrintT(<<"L2FAIL", "C14", rec.id>>))
     /\ (Level # 2 \/ C20OK(rec) \/ PrintT(<<"L2FAIL", "C20", rec.id>>))
     /\ (Level # 1 \/ StepOK(rec) \/ PrintT(<<"L1DRIFT", "arr", rec.id>>))
